@@ -54,7 +54,7 @@ def shard_text(cases):
     tabs, names, lines = [], {}, []
     for c in cases:
         if c["kind"] == "filter":
-            key = c["policy"] + "\0" + c["default"]
+            key = c.get("policy", "") + "\0" + c["default"]
             if key not in names:
                 names[key] = "az%d" % len(names)
                 tabs.append("Definition %s := %s." % (names[key], aztab(c["az"])))
@@ -216,7 +216,7 @@ def run(ctx):
     # ---- model vs implementation, inside Coq ----
     per = 400
     shards = [cases[i:i + per] for i in range(0, len(cases), per)]
-    res = vlib.coq_run_shards(PROP, [shard_text(s) for s in shards], jobs=6)
+    res = vlib.coq_run_shards(PROP, [shard_text(s) for s in shards], jobs=4)
     mism = []
     for s, (okk, idx, raw) in zip(shards, res):
         if not okk:
